@@ -21,6 +21,10 @@ ASSUMPTIONS = ["transliterated (unidecode) or Shift-JIS encoded forms of a sourc
 SUPPORTED_KEYS = {"qua": [4, 7], "sm": [3, 4, 6, 7, 8], "osu": None, "bms": None}
 
 
+def pinned(tier):
+    return [dict(cls="repo_test_suite", select=['tests/algorithm_tests/convert'])] if tier == "thorough" else []
+
+
 def gen(rng, tier, k):
     from rv.gen import charts
     from rv.monitors.convert import CONVERTERS, split_name
@@ -37,6 +41,9 @@ def gen(rng, tier, k):
     if rng.random() < 0.9:
         kw["n"] = rng.choice([1, 2, 5, 12, 25])
     spec = charts.gen_spec(rng, sg, **kw)
+    if sg == "sm" and len(spec["charts"]) > 1 and rng.random() < 0.35:
+        for ch in spec["charts"][1:]:
+            ch["bpms"] = [[b[0] + 250.0 * i, rng.choice(charts.BPMS), 4] for i, b in enumerate(spec["charts"][0]["bpms"][: rng.randint(1, 3)])]
     if tg == "bms" and rng.random() < 0.85:
         safe = ["Caravan", "a b c", "x_y-z", "2nd", "夜に駆ける", "Title"]
         for holder in [spec] + spec["charts"]:
@@ -61,6 +68,9 @@ def setup(ctx):
 
 
 def run(ctx, case):
+    if case.get("cls") == "repo_test_suite":
+        from rv.suite import run_repo_tests
+        return run_repo_tests(ctx, case.get("select"))
     import importlib
     import inspect
 
